@@ -1192,10 +1192,6 @@ class Exec:
         short = name.rsplit('/', 1)[-1]
         while True:
             b = blocks[bi]
-            n = visits.get(bi, 0) + 1
-            visits[bi] = n
-            if n > self.unwind and not lenient and self.pinned is None:
-                raise PathEnd('bound-exceeded', 'unwind %d exceeded in %s block %d' % (self.unwind, short, bi))
             instrs = b['instrs']
             # phis first (parallel assignment)
             if instrs and instrs[0]['op'] == 'Phi':
@@ -1227,6 +1223,12 @@ class Exec:
                             prev, bi = m
                             break
                     c = self.branch(cv, short)
+                    if isinstance(cv, z3.ExprRef) and not lenient:
+                        # unwinding bound: counts only iterations whose continuation the solver decided
+                        n = visits.get(bi, 0) + 1
+                        visits[bi] = n
+                        if n > self.unwind and self.pinned is None:
+                            raise PathEnd('bound-exceeded', 'unwind %d exceeded in %s block %d' % (self.unwind, short, bi))
                     prev = bi
                     bi = b['succs'][0 if c else 1]
                     break
